@@ -27,7 +27,9 @@ static std::string g_filename(Tape &t, int kind) {
   if (deep) nseg = t.range(250, 300);  // counters of separators that are narrower than int
   // in a deep name only the segments around the 8-bit wrap and the last one are generated, the rest is a plain "d"
   // (the choice tape is finite: 300 generated segments would leave the late ones empty)
+  bool giant = !deep && t.chance(1, 128);  // one segment that makes the name longer than 2^16 characters (16-bit lengths)
   auto segment = [&](int i, const char *forbidden) -> std::string {
+    if (giant && i == 1) return std::string((size_t)65530 + t.below(12), 'g');
     if (deep && !(i >= 250 && i <= 262) && i != nseg && i > 1) return "d";
     return g_name_chars(t, 5, forbidden);
   };
@@ -36,7 +38,10 @@ static std::string g_filename(Tape &t, int kind) {
     for (int i = 0; i <= nseg; i++) segs.push_back(segment(i, "/"));
     std::string body;
     for (size_t i = 0; i < segs.size(); i++) { if (i) body += '/'; body += segs[i]; }
-    if (kind == 0) return "/" + body;
+    if (kind == 0) {
+      if (t.chance(1, 64)) return std::string((size_t)t.range(250, 260), '/') + body;  // counters of slashes narrower than int
+      return "/" + body;
+    }
     if (!body.empty() && body[0] == '/') body = "r" + body;  // relative iff it does not start with '/'
     return body;
   }
@@ -71,8 +76,8 @@ static Fields gen(Tape &t) {
   return f;
 }
 
-static GuardBuf &gb1() { static GuardBuf g(16); return g; }
-static GuardBuf &gb2() { static GuardBuf g(16); return g; }
+static GuardBuf &gb1() { static GuardBuf g(320); return g; }  // 1.25 MiB: names of 2^16 characters, tripled, four bytes wide
+static GuardBuf &gb2() { static GuardBuf g(320); return g; }
 
 template <class A> static Verdict check_type(const std::string &name, int kind) {
   using Ch = typename A::Ch;
@@ -80,6 +85,7 @@ template <class A> static Verdict check_type(const std::string &name, int kind) 
   bool absolute = kind == 0 || kind == 2 || kind == 3;
   size_t n = name.size();
   size_t cap = (absolute ? (unix_ ? 7 : 8) : 0) + 3 * n + 1;
+  if (cap * sizeof(Ch) > gb1().capacity()) return Verdict::discard();  // harness limit (guard buffer)
   std::basic_string<Ch> in = widen<Ch>(name);
   Ch *uri = gb1().template right_chars<Ch>(cap);
   for (size_t i = 0; i < cap; i++) uri[i] = (Ch)0xAA;
